@@ -92,7 +92,7 @@ class ATSPEnv(RL4COEnvBase):
         # Other variables
         current_node = torch.zeros((*batch_size, 1), dtype=torch.int64, device=device)
         available = torch.ones(
-            (*batch_size, self.generator.num_loc), dtype=torch.bool, device=device
+            (*batch_size, cost_matrix.shape[-1]), dtype=torch.bool, device=device
         )  # 1 means not visited, i.e. action is allowed
         i = torch.zeros((*batch_size, 1), dtype=torch.int64, device=device)
 
